@@ -164,7 +164,12 @@ def base_bigpeak(ctx):
     return 50.0 * (1 - 2 * abs(_x0(ctx) - 0.3))
 
 
-BASES = {"bigpeak": base_bigpeak, "zero": base_zero, "neg": base_neg, "alt": base_alt, "peak": base_peak, "negpeak": base_negpeak,
+def base_drift(ctx):
+    # rewards that get steadily worse: later (deeper) evaluations look worse than early shallow ones
+    return -0.01 * ctx.t
+
+
+BASES = {"drift": base_drift, "bigpeak": base_bigpeak, "zero": base_zero, "neg": base_neg, "alt": base_alt, "peak": base_peak, "negpeak": base_negpeak,
          "twopeak": base_twopeak}
 
 
